@@ -425,3 +425,14 @@ class BreakSig(Exception):
 
 class ContinueSig(Exception):
     pass
+
+
+class SetV:
+    """a mutable set of possibly symbolic elements (insertion ordered; the
+    iteration order of a CPython set is unspecified, so code whose result
+    depends on it is outside the subset anyway)"""
+    def __init__(self, items=None):
+        self.items = list(items or [])
+
+    def __repr__(self):
+        return 'SetV(%r)' % (self.items,)
